@@ -1,6 +1,6 @@
 SPECIFICATION Spec
 CONSTANTS
-  N = 4
+  N = 5
   Mul = 3
   Mod = 7
   Hs = {0}
@@ -11,14 +11,14 @@ CONSTANTS
   MaxFail = 0
   Sim = FALSE
   Hist = TRUE
-  NSel = 2
+  NSel = 1
   MaxBlocks = 2
-  MaxSel = 4
+  MaxSel = 6
   HRs = {0, 1}
-  HSums = {1, 4}
+  HSums = {3}
   S0Min = 2
-  Kinds = {"stay", "join", "leave", "swap"}
-  Keys = {1, 3, 5}
-  Late = TRUE
+  Kinds = {"stay", "join", "leave"}
+  Keys = {1, 2, 3, 5}
+  Late = FALSE
 INVARIANTS ChainWellFormed HMember HistoryIndependent ImplObjectMatches
 CHECK_DEADLOCK FALSE
